@@ -17,6 +17,7 @@ from ..ref.grouped_list import norm
 
 PROP = "C10"
 CLASSES = ["Discretizer", "BinaryCarver", "ContinuousCarver"]
+MULTI_SIDS = [0, 6]  # MulticlassCarver is explored on these scenarios
 
 
 def isnan(v):
@@ -78,6 +79,19 @@ def scenario(sid, seed=0):
         )
         kinds = {"u": "QNT", "v": "QNT", "w": "QNT", "c": "CAT"}
         ranks = {}
+    elif sid == 6:
+        # feature names that look like the per-class copies MulticlassCarver creates (lag -> lag_1, lag_2)
+        n = 24
+        X = pd.DataFrame(
+            {
+                "lag": pd.Series([float(i // 6) for i in range(n)], dtype=float),
+                "lag_1": pd.Series([float((i * 5) % 4) for i in range(n)], dtype=float),
+                "c": pd.Series([names[i % 3] for i in range(n)], dtype=object),
+                "c_2": pd.Series([names[(i // 2) % 3] for i in range(n)], dtype=object),
+            }
+        )
+        kinds = {"lag": "QNT", "lag_1": "QNT", "c": "CAT", "c_2": "CAT"}
+        ranks = {}
     elif sid == 5:
         # two categorical features sharing their vocabulary (one value is unseen for `home` but frequent for `work`),
         # both with rare categories (default group); an ordinal feature stored as numbers with a ranking of strings
@@ -125,6 +139,8 @@ def target(cls, n):
     pat = [0, 0, 0, 1, 0, 0, 1, 1, 0, 1, 1, 1] * (n // 12)
     if cls == "ContinuousCarver":
         return pd.Series([p * 2 + (i % 3) * 0.5 + (i // 8) for i, p in enumerate(pat)])
+    if cls == "MulticlassCarver":
+        return pd.Series([(p + i // 5) % 3 for i, p in enumerate(pat)])
     return pd.Series(pat)
 
 
@@ -141,6 +157,10 @@ def build(cls, feats, kinds, ranks, n_jobs):
     kw = dict(min_freq=0.1, quantitative_features=quanti, qualitative_features=quali, ordinal_features=ordi, values_orders=vo, max_n_mod=3, copy=True, n_jobs=n_jobs)
     if cls == "BinaryCarver":
         return BinaryCarver(sort_by="tschuprowt", **kw)
+    if cls == "MulticlassCarver":
+        from AutoCarver import MulticlassCarver
+
+        return MulticlassCarver(sort_by="tschuprowt", **kw)
     return ContinuousCarver(**kw)
 
 
@@ -153,6 +173,17 @@ def outcome(obj, X, feats, Xnew=None):
             trn = obj.transform(Xnew.copy())
         except Exception as exc:  # noqa
             trn = f"raises {type(exc).__name__}"
+    casting = getattr(obj, "features_casting", None) or {}
+    if type(obj).__name__ == "MulticlassCarver":
+        # per raw feature: the outcome of each of its per-class copies
+        for f in feats:
+            per = {}
+            for cf in sorted(casting.get(f, [])):
+                o = obj.values_orders[cf]
+                canon = [[list(norm(k)), sorted(list(norm(v)) for v in o.content[k])] for k in o]
+                per[cf[len(f) :]] = [canon, [("nan" if isnan(v) else (float(v) if isinstance(v, (int, float, np.integer, np.floating)) else str(v))) for v in tr[cf].tolist()]]
+            out[f] = ["kept" if per else "dropped", per, None]
+        return json.loads(json.dumps(out))
     for f in feats:
         if f not in obj.features:
             out[f] = ["dropped", None, [("nan" if isnan(v) else v) for v in tr[f].tolist()] == [("nan" if isnan(v) else v) for v in X[f].tolist()]]
@@ -265,8 +296,9 @@ def run(tier, seed, rep):
     sids = [0, 1, 3, 4, 5] if tier == "quick" else [0, 1, 2, 3, 4, 5]
     cases = []
     # (a) subsets, orderings of the feature list, column orders -- sequential, no seams
-    for cls in CLASSES:
-        for sid in sids:
+    pairs = [(cls, sid) for cls in CLASSES for sid in sids] + [("MulticlassCarver", sid) for sid in MULTI_SIDS]
+    for cls, sid in pairs:
+        if True:
             _, kinds, _ = scenario(sid, seed)
             names = list(kinds)
             for r in range(1, len(names) + 1):
@@ -280,8 +312,8 @@ def run(tier, seed, rep):
     # (b)+(c) schedules: default plan first (records the trace), then deviations
     d = 1
     plan_cases = []
-    for cls in CLASSES:
-        for sid in sids:
+    for cls, sid in pairs:
+        if True:
             base = {"cls": cls, "sid": sid, "seed": seed, "mode": "plan", "plan": [], "n_jobs": 2}
             r0 = common.call_guarded(run_case, base)
             if "trace" not in r0:  # the default schedule itself fails: report it, nothing to derive deviations from
@@ -334,8 +366,8 @@ def run(tier, seed, rep):
     # conformance with reality: real hash seeds, real pools
     hashseeds = range(4) if tier == "quick" else range(16)
     real = []
-    for cls in CLASSES:
-        for sid in sids:
+    for cls, sid in pairs:
+        if True:
             for hs in hashseeds:
                 real.append((cls, sid, seed, 1, hs))
             for nj in (2, 3):
